@@ -725,7 +725,7 @@ fn scenarios(thorough: bool, rng: &mut Rng) -> Vec<Scen> {
         v.push(Scen { name: format!("starttls/garbage-{}/{}", i, vname(&cfg)), cfg, script: vec![Step::ReadReq, Step::Write(g.clone())], chunks: vec![g.clone()], end: End::Eof, hs: Hs::Fail, cert: Cert::Good, bad: Some("garbage"), forged: false });
     }
 
-    // --- a response which is not an LDAPResult (the caller's task panics in op_call)
+    // --- a response which is not an LDAPResult (a decoding error from op_call; a panic on the caller's task before F27)
     for (i, m) in [vec![0x30, 0x05, 0x02, 0x01, 0x01, 0x78, 0x00], vec![0x30, 0x08, 0x02, 0x01, 0x01, 0x78, 0x03, 0x04, 0x01, 0x41]].iter().enumerate() {
         let cfg = next_cfg(true);
         v.push(Scen { name: format!("starttls/not-a-result-{}/{}", i, vname(&cfg)), cfg, script: vec![Step::ReadReq, Step::Write(m.clone()), Step::Hold], chunks: vec![m.clone()], end: End::Silent, hs: Hs::Stall, cert: Cert::Good, bad: Some("garbage"), forged: false });
